@@ -151,6 +151,7 @@ def run_scenario(inst, tier):
     res.count(f"scenario_closure_states:{inst['name']}", len(seen))
     if stats["capped"]:
         res.count("scenario_closures_capped")
+        res.truncated += 1
     for p in problems:
         pprop, key, msg, choices, hist = p
         if pprop == "C11":
